@@ -52,7 +52,7 @@ impl<'a> Visitor for V<'a> {
             }
         }
         // known finding: CombinedKey signing with ed25519 while a valid secp256k1 entry is present
-        if fam == FamId::CombinedEd && secp_valid_entry(&post.pairs) && !crate::engine::strict() && crate::engine::is_known(KNOWN_COMBINED_ED) {
+        if known_combined_state(fam, post) && !crate::engine::strict() && crate::engine::is_known(KNOWN_COMBINED_ED) {
             if valid_record::<K>(fam, post, enr).is_err() {
                 self.st.known(KNOWN_COMBINED_ED);
                 self.stop = true;
